@@ -126,10 +126,44 @@ fn run(ctx: &RunCtx) -> Report {
             });
             for s in &net.servers {
                 if *s != from && !queried.contains(&sim.node_addr(*s)) {
+                    if ctx.verbose {
+                        refresh_snapshots(&sim, &all);
+                        let missing = sim.node_addr(*s);
+                        println!("missing {missing} id {:?}", sim.snapshot(*s).map(|x| hex8(&x.id)));
+                        for h in &all {
+                            if let Some(sn) = sim.snapshot(*h) {
+                                for (tn, tb) in [("main", &sn.routing_table), ("signed", &sn.signed_peers_routing_table)] {
+                                    for (_, b) in &tb.buckets {
+                                        for n in b {
+                                            if n.address == missing {
+                                                println!("  {} ({}) has it in {tn} as {} secure={} age {:.0}s", sim.node_addr(*h), if sim.node_spec(*h).server_mode { "server" } else { "client" }, hex8(&n.id), n.secure, n.age_ns as f64 / 1e9);
+                                            }
+                                        }
+                                    }
+                                }
+                            }
+                        }
+                        let fs = sim.snapshot(from).unwrap();
+                        println!("  lookup node {} id {} table size {} public_address {:?} firewalled {}", sim.node_addr(from), hex8(&fs.id), fs.routing_table.size, fs.public_address, fs.firewalled);
+                    }
+                    // is the missed server held by others under an id it no longer has (it re-keyed
+                    // after confirming its public address; the old id keeps its IP's slot)?
+                    refresh_snapshots(&sim, &all);
+                    let missing = sim.node_addr(*s);
+                    let cur = sim.snapshot(*s).map(|x| x.id);
+                    let stale_holders = all
+                        .iter()
+                        .filter(|h| {
+                            sim.snapshot(**h)
+                                .map(|sn| [&sn.routing_table, &sn.signed_peers_routing_table].iter().any(|t| t.buckets.iter().any(|(_, b)| b.iter().any(|n| n.address == missing && Some(n.id) != cur))))
+                                .unwrap_or(false)
+                        })
+                        .count();
+                    let key = if stale_holders > 0 { "lookup-missed-a-rekeyed-server-held-under-its-old-id" } else { "lookup-missed-a-server" };
                     report.violate(
                         "discoverability",
-                        "lookup-missed-a-server",
-                        format!("a lookup from {} queried {} addresses but not server {} ({} servers in the network); {what}", sim.node_addr(from), queried.len(), sim.node_addr(*s), net.servers.len()),
+                        key,
+                        format!("a lookup from {} queried {} addresses but not server {} ({} servers in the network; {stale_holders} nodes hold that address under an id it no longer has); {what}", sim.node_addr(from), queried.len(), sim.node_addr(*s), net.servers.len()),
                     );
                     break;
                 }
